@@ -147,12 +147,16 @@ func checkC36(c *Ctx, r *Report) {
 	wantCmp := map[string]token.Token{ // "recField|side" → operator that skips
 		"Timestamp|min": token.LSS, "Timestamp|max": token.GTR, "Offset|min": token.LSS, "Offset|max": token.GTR,
 	}
+	boundPtr := map[string]map[string]ssa.Value{}
 	for _, hn := range []string{"(*Server).handleSelect", "(*Server).handleAggregateSelect"} {
 		fn := needFn(m, r, "C36.R2", pkgSQLServer, hn)
 		if fn == nil {
 			continue
 		}
 		seen := map[string]bool{}
+		if boundPtr[fn.Name()] == nil {
+			boundPtr[fn.Name()] = map[string]ssa.Value{}
+		}
 		for _, b := range fn.Blocks {
 			ifi, ok := b.Instrs[len(b.Instrs)-1].(*ssa.If)
 			if !ok {
@@ -184,6 +188,7 @@ func checkC36(c *Ctx, r *Report) {
 			k := rf + "|" + side
 			key := fmt.Sprintf("%s: record filter on %s against the %s bound", fn.Name(), rf, side)
 			seen[k] = true
+			boundPtr[fn.Name()][k] = u.X
 			if bo.Op == wantCmp[k] {
 				r.ok("C36.R2", key, ifPos(m, ifi), "skips on "+bo.Op.String())
 			} else {
@@ -202,17 +207,10 @@ func checkC36(c *Ctx, r *Report) {
 			a := call.Common().Args // parsed, segments, timeMin, timeMax
 			okB := true
 			why := ""
-			for i, nm := range []string{"timeMin", "timeMax"} {
-				used := false
-				for _, b := range hs.Blocks {
-					for _, in := range b.Instrs {
-						if u, ok := in.(*ssa.UnOp); ok && u.Op == token.MUL && sameSource(u.X, a[2+i]) {
-							used = true
-						}
-					}
-				}
-				if !used {
-					okB, why = false, nm+" passed to filterSegments is not the value the record filter dereferences"
+			for i, k := range []string{"Timestamp|min", "Timestamp|max"} {
+				bp := boundPtr["handleSelect"][k]
+				if bp == nil || !(sameSource(bp, a[2+i]) || strip(bp) == strip(a[2+i])) {
+					okB, why = false, "argument "+describe(a[2+i])+" of filterSegments is not the "+k+" bound the record filter dereferences ("+describe(bp)+")"
 				}
 			}
 			if !dependsOnParam(a[0], hs.Params[3]) {
@@ -346,8 +344,8 @@ func checkC36(c *Ctx, r *Report) {
 				// sorted before
 				sorted := false
 				for _, sc := range findCalls(w.Fn, "sort.Slice") {
-					if instrDominates(sc.(ssa.Instruction), w.In) {
-						sorted = true
+					if _, isCall := sc.(*ssa.Call); isCall && instrDominates(sc.(ssa.Instruction), w.In) {
+						sorted = true // a deferred sort runs after the loop and does not count
 					}
 				}
 				if okIdx && sorted {
